@@ -677,7 +677,7 @@ Proof.
                             | Some _ => ret tt
                             | None => cw2 <- getw w ;;
                                 (if match w_focus cw2 with Some _ => true | None => false end || w_focused cw2
-                                 then upd p (fun c => set_focus c (Some w)) else ret tt)
+                                 then upd p (fun c => set_focus c (Some w)) ;;; focus_chain_changed fuel (Some p) else ret tt)
                             end
                         | None => ret tt
                         end) h1 with
@@ -691,9 +691,16 @@ Proof.
     unfold bind at 1. rewrite (getw_run h1 w _ Hw1).
     match goal with |- match (if ?b then _ else _) h1 with _ => _ end => destruct b end;
       [|cbn; split; [exact HI1|apply stable_refl]].
-    rewrite (upd_run h1 p _ cp Hp).
-    apply (hinv_set_focus D h1 p cp (Some w) HI1 Hp).
-    intros x Ex. inversion Ex; subst x. eauto. }
+    unfold bind. rewrite (upd_run h1 p _ cp Hp).
+    destruct (hinv_set_focus D h1 p cp (Some w) HI1 Hp) as [HIa Sa].
+    { intros x Ex. inversion Ex; subst x. eauto. }
+    set (ha := upd_cell h1 p (fun c => set_focus c (Some w))) in *.
+    pose proof (focus_chain_changed_spec D fuel (Some p) ha ha) as Hfc.
+    assert (Hpa : findw ha p <> None) by (apply (stable_live h1 ha p Sa); congruence).
+    assert (Hla : forall a, Some p = Some a -> findw ha a <> None) by (intros a Ea; inversion Ea; subst a; exact Hpa).
+    specialize (Hfc (conj eq_refl (conj HIa Hla))).
+    destruct (focus_chain_changed fuel (Some p) ha) as [ub hb| |]; [|contradiction|exact I].
+    split; [eapply hinv_rx_only; eauto|]. eapply stable_trans; [exact Sa|]. apply rx_only_stable. exact Hfc. }
   match goal with |- match match ?m h1 with _ => _ end with _ => _ end => destruct (m h1) as [u2 h2| |] end; [|contradiction|exact I].
   destruct Hmid as [HI2 S2].
   pose proof (expose_spec D fuel w h2 h2 (conj eq_refl (conj HI2 (stable_live h h2 w (stable_trans _ _ _ S1 S2) Hlw)))) as He.
@@ -716,15 +723,24 @@ Proof.
   destruct (hinv_parent_live D h1 w _ p HI1 Hw1 Hwp1) as [cp Hp].
   unfold bind at 1. rewrite (getw_run h1 p cp Hp).
   unfold bind at 1.
-  assert (Hmid : match (if ptr_eqb (w_focus cp) (Some w) then setw p (set_focus cp None) else ret tt) h1 with
+  assert (Hmid : match (if ptr_eqb (w_focus cp) (Some w)
+                        then setw p (set_focus cp None) ;;; focus_chain_changed fuel (Some p) else ret tt) h1 with
                  | Ok _ h2 => hinv D h2 /\ stable h1 h2
                  | Fault _ _ => False | NoFuel => True end).
   { destruct (ptr_eqb (w_focus cp) (Some w)); [|cbn; split; [exact HI1|apply stable_refl]].
-    rewrite (setw_run h1 p cp _ Hp).
+    unfold bind. rewrite (setw_run h1 p cp _ Hp).
     assert (Eh : upd_cell h1 p (fun _ => set_focus cp None) = upd_cell h1 p (fun c => set_focus c None)).
     { unfold upd_cell. rewrite Hp. reflexivity. }
-    rewrite Eh. apply (hinv_set_focus D h1 p cp None HI1 Hp). intros x Ex. discriminate. }
-  destruct ((if ptr_eqb (w_focus cp) (Some w) then setw p (set_focus cp None) else ret tt) h1) as [u2 h2| |]; [|contradiction|exact I].
+    rewrite Eh. destruct (hinv_set_focus D h1 p cp None HI1 Hp) as [HIa Sa]; [intros x Ex; discriminate|].
+    set (ha := upd_cell h1 p (fun c => set_focus c None)) in *.
+    pose proof (focus_chain_changed_spec D fuel (Some p) ha ha) as Hfc.
+    assert (Hpa : findw ha p <> None) by (apply (stable_live h1 ha p Sa); congruence).
+    assert (Hla : forall a, Some p = Some a -> findw ha a <> None) by (intros a Ea; inversion Ea; subst a; exact Hpa).
+    specialize (Hfc (conj eq_refl (conj HIa Hla))).
+    destruct (focus_chain_changed fuel (Some p) ha) as [ub hb| |]; [|contradiction|exact I].
+    split; [eapply hinv_rx_only; eauto|]. eapply stable_trans; [exact Sa|]. apply rx_only_stable. exact Hfc. }
+  destruct ((if ptr_eqb (w_focus cp) (Some w)
+             then setw p (set_focus cp None) ;;; focus_chain_changed fuel (Some p) else ret tt) h1) as [u2 h2| |]; [|contradiction|exact I].
   destruct Hmid as [HI2 S2].
   assert (Hlp2 : findw h2 p <> None) by (apply (stable_live h1 h2 p S2); congruence).
   pose proof (expose_spec D fuel p h2 h2 (conj eq_refl (conj HI2 Hlp2))) as He.
@@ -808,16 +824,34 @@ Proof.
   pose proof (anc_live_l h w root Hanc) as Hlw. destruct (live_some h w Hlw) as [c Hw].
   unfold bind at 1. rewrite (getw_run h w c Hw). unfold bind at 1.
   (* the previously focused child loses the focus *)
-  assert (H1 : match (match w_focus c, child with
+  assert (H1a : match (match w_focus c, child with
                       | Some fc, Some ch => if negb (Pos.eqb fc ch) then focus_lost f fc else ret tt
-                      | _, _ => ret tt end) h with
+                      | Some fc, None => focus_lost f fc
+                      | None, _ => ret tt end) h with
                | Ok _ h1 => flags_only h h1 | Fault _ _ => False | NoFuel => True end).
   { destruct (w_focus c) as [fc|] eqn:Hfo; [|cbn; apply flags_only_refl].
-    destruct child as [ch|]; [|cbn; apply flags_only_refl].
-    destruct (negb (Pos.eqb fc ch)); [|cbn; apply flags_only_refl].
     destruct (hi_focus [] h HI w c fc Hw (fun x => x) Hfo) as [cf [Hfc _]].
-    apply (focus_lost_spec f fc h HI); [congruence|reflexivity]. }
-  match goal with |- match match ?m h with _ => _ end with _ => _ end => destruct (m h) as [u1 h1| |] end; [|contradiction|exact I].
+    destruct child as [ch|].
+    - destruct (negb (Pos.eqb fc ch)); [|cbn; apply flags_only_refl].
+      apply (focus_lost_spec f fc h HI); [congruence|reflexivity].
+    - apply (focus_lost_spec f fc h HI); [congruence|reflexivity]. }
+  match goal with |- match match ?m h with _ => _ end with _ => _ end => destruct (m h) as [u1a h1a| |] end; [|contradiction|exact I].
+  (* the window itself no longer holds the focus when it moves on to a descendant *)
+  unfold bind at 1.
+  assert (H1b : match (match child with
+                       | Some _ => c0 <- getw w ;; if w_focused c0 then setw w (set_focused c0 false) else ret tt
+                       | None => ret tt end) h1a with
+                | Ok _ h1 => flags_only h1a h1 | Fault _ _ => False | NoFuel => True end).
+  { destruct child; [|cbn; apply flags_only_refl].
+    destruct (links_eq_find h h1a w c (proj1 H1a) Hw) as [c0 [Hw0 _]].
+    unfold bind at 1. rewrite (getw_run h1a w c0 Hw0).
+    destruct (w_focused c0); [|cbn; apply flags_only_refl].
+    rewrite (setw_run h1a w c0 _ Hw0).
+    assert (Eh : upd_cell h1a w (fun _ => set_focused c0 false) = upd_cell h1a w (fun c => set_focused c false)).
+    { unfold upd_cell. rewrite Hw0. reflexivity. }
+    rewrite Eh. apply flags_only_upd. intro cx. split; [repeat split|reflexivity]. }
+  match goal with |- match match ?m h1a with _ => _ end with _ => _ end => destruct (m h1a) as [u1 h1| |] end; [|contradiction|exact I].
+  assert (H1 : flags_only h h1) by (eapply flags_only_trans; eauto).
   pose proof (flags_only_hinv [] h h1 HI H1) as HI1. pose proof (flags_only_stable h h1 H1) as S1.
   destruct (links_eq_find h h1 w c (proj1 H1) Hw) as [c1 [Hw1 [Hp1 _]]].
   unfold bind at 1. rewrite (getw_run h1 w c1 Hw1). unfold bind at 1.
